@@ -1,6 +1,7 @@
 package main
 
 import (
+	"go/token"
 	"fmt"
 	"go/types"
 	"strings"
@@ -201,7 +202,7 @@ func runC17(c *Check) {
 			}
 			// a set flag leads to production at the block timer: the block-timer case calls produce when the flag is set
 			blockTimerEdges := selectCaseEdges(g, func(t *Term) bool {
-				return t.Op == "field" && t.Name == "C" && strings.Contains(t.Args[0].String(), lazy.Params[2].Name())
+				return t.Op == "field" && t.Name == "C" && strings.Contains(t.Args[0].String(), timerParamName(lazy))
 			})
 			flagSet := g.Select(EdgeWhere(func(t *Term, pol bool, n *Node) bool {
 				t, pol = normFact(t, pol)
@@ -365,6 +366,90 @@ func runC17(c *Check) {
 			}
 		}
 	}
+	// ---- R7: no production before the start-up delay has elapsed. Every path from the entry of
+	// the aggregation loop to a production passes a gate: the delay is not positive, or a wait on
+	// time.After(delay) returned, or the timer case taken belongs to a timer created with the delay.
+	c.Doc("C17-R7", "EO: every path from the start of the aggregation loop to a production passes the start-up delay (not positive, waited for, or carried by the timer whose case fired) — in lazy and in normal mode.")
+	{
+		g := BuildECFG(p, agg, ExpandOpts{MaxDepth: 3, Stop: func(fn *ssa.Function) bool {
+			return strings.HasSuffix(fnName(fn), "publishBlockInternal") || strings.Contains(fnName(fn), "publishBlockInternal$bound")
+		}})
+		c.NoteGraph(g)
+		isDelay := func(t *Term) bool { return t != nil && strings.Contains(t.String(), "time.Until(") }
+		chanGate := func(t *Term) bool {
+			// <-time.After(delay)
+			if t.IsCall("time.After") && len(t.Args) == 1 && isDelay(t.Args[0]) {
+				return true
+			}
+			// <-timer.C with timer = time.NewTimer(delay…)
+			if t.Op == "field" && t.Name == "C" && len(t.Args) == 1 {
+				tm := t.Args[0]
+				found := false
+				tm.Walk(func(x *Term) bool {
+					if x.IsCall("time.NewTimer") && len(x.Args) == 1 && isDelay(x.Args[0]) {
+						found = true
+					}
+					return true
+				})
+				return found && !strings.Contains(tm.String(), "time.NewTimer(0")
+			}
+			return false
+		}
+		gates := g.Select(func(n *Node) bool {
+			if n.Kind != NTrue && n.Kind != NFalse {
+				return false
+			}
+			ifi := n.In.(*ssa.If)
+			b, ok := ifi.Cond.(*ssa.BinOp)
+			if !ok {
+				return false
+			}
+			// delay > 0 is false
+			t, pol := CondTerm(n)
+			if t.Op == "bin" && t.Name == ">" && !pol && isDelay(t.Args[0]) && t.Args[1].Op == "const" {
+				return true
+			}
+			if b.Op != token.EQL {
+				return false
+			}
+			ex, ok := b.X.(*ssa.Extract)
+			if !ok || ex.Index != 0 {
+				return false
+			}
+			sel, ok := ex.Tuple.(*ssa.Select)
+			k, isK := b.Y.(*ssa.Const)
+			if !ok || !isK {
+				return false
+			}
+			idx := int(k.Int64())
+			if n.Kind == NTrue {
+				return idx < len(sel.States) && chanGate(TermOf(sel.States[idx].Chan, n.Ctx))
+			}
+			// the false edge of the last comparison selects the remaining states
+			for i := idx + 1; i < len(sel.States); i++ {
+				if !chanGate(TermOf(sel.States[i].Chan, n.Ctx)) {
+					return false
+				}
+			}
+			return idx+1 < len(sel.States)
+		})
+		// a plain receive <-time.After(delay) / time.Sleep(delay)
+		waits := g.Select(func(n *Node) bool {
+			if u, ok := n.In.(*ssa.UnOp); ok && u.Op == token.ARROW {
+				return chanGate(TermOf(u.X, n.Ctx))
+			}
+			return CallName(n) == "time.Sleep" && isDelay(ArgTerm(n, 0))
+		})
+		prods := g.Select(isProduce)
+		if len(prods) == 0 {
+			c.Unk("C17-R7", "AggregationLoop ⟂ start-up-delay-before-first-production", fnName(agg), "", "anchor lost: no production call in reach of the aggregation loop")
+		} else {
+			c.Decide("C17-R7", "AggregationLoop ⟂ start-up-delay-before-first-production", fnName(agg), p.InstrPos(prods[0].In), "every path to a production passes the start-up delay",
+				"a production is reachable without the start-up delay having elapsed (a timer armed with zero fires at once): after a restart a block follows its predecessor in less than one block interval", g,
+				g.PathAvoiding([]*Node{g.Entry}, nodeSet(prods), orPred(nodeSet(gates), nodeSet(waits))))
+		}
+		c.MinInstances("C17-R7", 1)
+	}
 	c.MinInstances("C17-R2", 4)
 	c.MinInstances("C17-R3", 3)
 	c.MinInstances("C17-R4", 2)
@@ -381,4 +466,14 @@ func resetsByBlockTime(p *Prog, n *Node) bool {
 	isBT := func(t *Term) bool { return t.Op == "field" && t.Name == "BlockTime" }
 	isLazy := func(t *Term) bool { return t.Op == "field" && t.Name == "LazyBlockInterval" }
 	return p.DeepContains(d, isBT, 2) && !p.DeepContains(d, isLazy, 2)
+}
+
+// timerParamName: the name of fn's parameter of type *time.Timer ("" if none).
+func timerParamName(fn *ssa.Function) string {
+	for _, prm := range fn.Params {
+		if prm.Type().String() == "*time.Timer" {
+			return prm.Name()
+		}
+	}
+	return "\x00"
 }
